@@ -3,11 +3,7 @@
 set -e
 cd "$(dirname "$0")"
 mkdir -p coq/gen coq/cases replay evidence
-# forbidden vernacular anywhere in the development
-if grep -rnE '\b(Admitted|admit|Axiom|Parameter|Conjecture|Admit Obligations)\b|Unset Guard|bypass_check|type-in-type|impredicative-set' \
-     --include='*.v' coq/theories coq/Properties | grep -v '^\S*:\s*[0-9]*:\s*(\*' ; then
-  echo "forbidden vernacular found" >&2; exit 1
-fi
+python3 tools/lint_coq.py
 cd coq
 exec 9> .lock; flock 9
 bash ../tools/coqbuild.sh
